@@ -184,30 +184,11 @@ class FPV:
 
 def _int_to_float(n: int, rm: RM, sort: FSort) -> float:
     """
-    The integer `n` rounded once, in the mode `rm`, to the precision of `sort`.  The result has no more significant
-    bits than the sort holds, so neither float() nor the packing done by FPV rounds it again (float(n) rounds to
-    double, to nearest; packing that as a single rounds a second time: 2**62 + 2**38 + 1 came out as 2**62).
+    The integer `n` rounded once, in the mode `rm`, to a value of `sort` (float(n) rounds to double, to nearest, and
+    packing that as a single rounds a second time: 2**62 + 2**38 + 1 came out as 2**62; it also raises OverflowError
+    where the conversion overflows to infinity).
     """
-    magnitude = abs(n)
-    shift = magnitude.bit_length() - sort.mantissa
-    if shift <= 0:
-        return float(n)
-    kept, rest = magnitude >> shift, magnitude & ((1 << shift) - 1)
-    half = 1 << (shift - 1)
-    if rm == RM.RM_NearestTiesEven:
-        up = rest > half or (rest == half and kept & 1 == 1)
-    elif rm == RM.RM_NearestTiesAwayFromZero:
-        up = rest >= half
-    elif rm == RM.RM_TowardsZero:
-        up = False
-    elif rm == RM.RM_TowardsPositiveInf:
-        up = rest != 0 and n > 0
-    elif rm == RM.RM_TowardsNegativeInf:
-        up = rest != 0 and n < 0
-    else:
-        raise ClaripyOperationError(f"unknown rounding mode {rm}")
-    magnitude = (kept + (1 if up else 0)) << shift
-    return float(-magnitude if n < 0 else magnitude)
+    return _round_fraction(Fraction(abs(n)), n < 0, rm, sort)
 
 
 def _round_fraction(q: Fraction, negative: bool, rm: RM, sort: FSort) -> float:
